@@ -3,7 +3,7 @@ import random
 import time
 
 from .sched import S
-from .common import gen_stalls, base_knobs, liveness_bound, FL
+from .common import gen_stalls, gen_slow_starts, base_knobs, liveness_bound, FL
 
 CANCEL_NAME = {"asyncio": "CancelledError", "trio": "Cancelled"}
 
@@ -12,6 +12,7 @@ def gen(seed, tier):
     rng = random.Random(seed)
     knobs = base_knobs(rng, tier)
     knobs["stalls"] = gen_stalls(rng)
+    knobs["slow_starts"] = gen_slow_starts(rng)
     payloads = []
     dscript = [["wait-running"]]
     n = rng.randint(0, 7)
